@@ -63,8 +63,19 @@ ValidVec(v) ==
   /\ (v["consts"] = "xinc" => v["inc"] # "single")
   /\ (v["kinds"] \in {"const", "enum"} => v["reqdef"] = Base["reqdef"] /\ v["ids"] = Base["ids"])
 
-OneOff == {v \in {[Base EXCEPT ![d] = x] : d \in Dims, x \in Dom[d]} : ValidVec(v)}
-TwoOff == {v \in {[Base EXCEPT ![d] = x, ![e] = y] : d \in Dims, e \in Dims, x \in Dom[d], y \in Dom[e]} : ValidVec(v)}
+\* the closest meaningful vector: dimensions that cannot matter are put back to Base
+Norm(v) == [d \in Dims |->
+  IF d \in SvcDims /\ v["kinds"] \notin {"all", "service"} THEN Base[d]
+  ELSE IF d = "consts" /\ v["kinds"] \notin {"all", "const"} THEN Base[d]
+  ELSE IF d \in {"reqdef", "ids"} /\ v["kinds"] \in {"const", "enum"} THEN Base[d]
+  ELSE IF d = "ext" /\ v["ext"] = "include" /\ v["inc"] = "single" THEN "local"
+  ELSE IF d = "throws" /\ v["svc"] = "oneway" THEN "0"
+  ELSE IF d = "consts" /\ v["consts"] = "xinc" /\ v["inc"] = "single" THEN "scalars"
+  ELSE v[d]]
+
+Off1(b) == UNION {{[b EXCEPT ![d] = x] : x \in Dom[d]} : d \in Dims}
+OneOff == {v \in Off1(Base) : ValidVec(v)}
+TwoOff == {v \in UNION {Off1(b) : b \in Off1(Base)} : ValidVec(v)}
 
 -----------------------------------------------------------------------------
 (* configurations *)
@@ -97,8 +108,8 @@ Pairs == {c \in {Companion(f) \cup Companion(g) : f \in {h \in AllForms : h.k = 
             Cardinality(c) >= 2 /\ ValidConf(c)}
 
 \* multiplicative hash into 0..46336 (46337 is prime; products stay below 2^31)
-H(x) == ((x % 46337) * 7919 + 13) % 46337
-H2(a, b) == H(H(a + Seed * 101) + b * 31)
+H(x) == LET y == x % 46337 IN (((y * y) % 46337) + ((y * 7919) % 46337) + 13) % 46337
+H2(a, b) == H(H(H(a + Seed * 101) + b * 31) + a)
 Pick(S, h) == SetToSeq(S)[(h % Cardinality(S)) + 1]      \* TLC enumerates a set in a fixed (normalized) order
 DimSeq == SetToSeq(Dims)
 RandVec(n) == [d \in Dims |-> Pick(Dom[d], H2(n, CHOOSE i \in 1..Len(DimSeq) : DimSeq[i] = d))]
@@ -132,7 +143,7 @@ GenVec == /\ pc = "vec"
           /\ pc' = "done"
 GenRand == /\ pc = "rand"
            /\ \E n \in 1..NRand :
-                LET v == RandVec(n)  c == RandConf(n) IN
+                LET v == Norm(RandVec(n))  c == RandConf(n) IN
                 /\ ValidVec(v) /\ ValidConf(c)
                 /\ cs' = Case("rand", v, c, IF H2(n, 77) % 3 = 0 THEN "fastgo" ELSE "go", H2(n, 78) % 4 # 0)
            /\ pc' = "done"
